@@ -4,6 +4,7 @@ import (
 	"fmt"
 	"io"
 	"io/ioutil"
+	"regexp"
 	"strings"
 	"unicode"
 )
@@ -118,6 +119,8 @@ type lexer struct {
 	last   token // The last emitted token
 	parens int   // Number of open parenthesis
 	braces int   // Number of open hashes, a subset of parens
+
+	verbatim bool // The tag being lexed is {% verbatim %}
 }
 
 // nextToken returns the next token emitted by the lexer.
@@ -141,7 +144,7 @@ func (l *lexer) tokenize() {
 func newLexer(input io.Reader) *lexer {
 	// TODO: lexer should use the reader.
 	i, _ := ioutil.ReadAll(input)
-	return &lexer{0, 0, 1, 0, string(i), make(chan token), nil, modeNormal, token{}, 0, 0}
+	return &lexer{0, 0, 1, 0, string(i), make(chan token), nil, modeNormal, token{}, 0, 0, false}
 }
 
 func (l *lexer) next() (val string) {
@@ -515,8 +518,31 @@ func lexTagOpen(l *lexer) stateFn {
 		l.pos++
 	}
 	l.emit(tokenTagOpen)
+	l.verbatim = verbatimOpenMatcher.MatchString(l.input[l.pos:])
 
 	return lexExpression
+}
+
+// verbatimOpenMatcher matches the remainder of a verbatim tag, verbatimCloseMatcher its end tag.
+var (
+	verbatimOpenMatcher  = regexp.MustCompile(`^[ \t\n]*verbatim[ \t\n]*-?%}`)
+	verbatimCloseMatcher = regexp.MustCompile(`{%-?[ \t\n]*endverbatim[ \t\n]*-?%}`)
+)
+
+// lexVerbatim emits everything up to the endverbatim tag as a single text token,
+// so the body is neither tokenized nor required to be valid template source.
+func lexVerbatim(l *lexer) stateFn {
+	loc := verbatimCloseMatcher.FindStringIndex(l.input[l.pos:])
+	if loc == nil {
+		l.pos = len(l.input)
+	} else {
+		l.pos += loc[0]
+	}
+	if l.pos > l.start {
+		l.emit(tokenText)
+	}
+
+	return lexData
 }
 
 func lexTagClose(l *lexer) stateFn {
@@ -528,6 +554,10 @@ func lexTagClose(l *lexer) stateFn {
 	}
 	l.pos += len(delimCloseTag)
 	l.emit(tokenTagClose)
+	if l.verbatim {
+		l.verbatim = false
+		return lexVerbatim
+	}
 
 	return lexData
 }
